@@ -1,8 +1,2080 @@
-//! C11 — not implemented yet
-use vcore::{Args, Check};
+//! C11 — certified transaction, block and stake sets are reported exactly as signed.
+//!
+//! Honest side = the aggregator's production path: blocks go through the real `CardanoChainDataImporter` into the
+//! real sqlite `AggregatorCardanoChainDataRepository`; the signed protocol messages come from the real signable
+//! builders, the proofs from the real `LegacyMithrilProverService` / `MithrilProverService`; responses are assembled
+//! the way the HTTP routes assemble them. A tampering grammar rewrites the RESPONSE (JSON view, including the decoded
+//! Merkle proof), the documented client flow is run on it (`verify()`, `MessageBuilder::compute_*_message`,
+//! `certificate.match_message`), and an accepted response is compared with the harness' own ground truth (the chain
+//! it generated, the stake map it generated).
+
+use std::collections::{BTreeMap, BTreeSet, HashMap};
+use std::sync::{Arc, Mutex, OnceLock};
+
+use mithril_aggregator::database::repository::AggregatorCardanoChainDataRepository;
+use mithril_aggregator::services::{
+    AggregatorChainDataImporter, LegacyMithrilProverService, LegacyProverService, MithrilProverService, ProverService,
+};
+use mithril_cardano_node_chain::chain_importer::CardanoChainDataImporter;
+use mithril_cardano_node_chain::entities::ScannedBlock;
+use mithril_cardano_node_chain::test::double::DumbBlockScanner;
+use mithril_client::MessageBuilder;
+use mithril_common::crypto_helper::{MKMapProof, MKTreeStoreInMemory, ProtocolMkProof};
+use mithril_common::entities::{
+    BlockNumber, BlockNumberOffset, BlockRange, Epoch, ProtocolMessage, ProtocolMessagePartKey, SlotNumber,
+};
+use mithril_common::messages::{
+    CardanoBlocksProofsMessage, CardanoStakeDistributionMessage, CardanoTransactionsProofsMessage,
+    CardanoTransactionsProofsV2Message, CertificateMessage,
+};
+use mithril_common::signable_builder::{
+    CardanoBlocksTransactionsSignableBuilder, CardanoStakeDistributionSignableBuilder, CardanoTransactionsSignableBuilder,
+    SignableBuilder, StakeDistributionRetriever,
+};
+use mithril_common::test::double::Dummy;
+use mithril_persistence::sqlite::{ConnectionBuilder, ConnectionOptions};
+use proptest::prelude::*;
+use serde::{Deserialize, Serialize};
+use serde_json::{Value, json};
+use vcore::util::Scratch;
+use vcore::{Args, Check, Report, catch, mix, pick_index};
+
+fn logger() -> slog::Logger {
+    slog::Logger::root(slog::Discard, slog::o!())
+}
+
+fn hex_hash(seed: u64, a: u64, b: u64) -> String {
+    let mut out = String::with_capacity(64);
+    for i in 0..4u64 {
+        out.push_str(&format!("{:016x}", mix(mix(seed, a * 4 + i), b ^ 0x5bd1e995)));
+    }
+    out
+}
+
+// ------------------------------------------------------------------------------------------- the chain
+
+#[derive(Clone, Debug, Serialize, Deserialize, PartialEq)]
+pub struct ChainSpec {
+    pub seed: u64,
+    /// number of the first block
+    pub first: u64,
+    /// transactions per block (length = number of blocks, 1..=80)
+    pub txs: Vec<u8>,
+    /// signed beacon = number of the block at this index
+    pub up_to_idx: u16,
+    /// security parameter (tip − signed block number)
+    pub offset: u64,
+    pub epoch: u64,
+}
+
+#[derive(Clone, Debug, PartialEq, Eq, PartialOrd, Ord)]
+pub struct Blk {
+    pub hash: String,
+    pub number: u64,
+    pub slot: u64,
+    pub txs: Vec<String>,
+}
+
+pub fn chain_of(spec: &ChainSpec) -> Vec<Blk> {
+    let mut slot = spec.first * 20 + (spec.seed % 7);
+    spec.txs
+        .iter()
+        .enumerate()
+        .map(|(i, n)| {
+            slot += 1 + mix(spec.seed, 900 + i as u64) % 40;
+            Blk {
+                hash: hex_hash(spec.seed, i as u64, 1),
+                number: spec.first + i as u64,
+                slot,
+                txs: (0..*n as u64).map(|t| hex_hash(spec.seed, i as u64, 100 + t)).collect(),
+            }
+        })
+        .collect()
+}
+
+/// One honest response in JSON form together with the query that produced it.
+#[derive(Clone, Debug)]
+pub struct Response {
+    pub query: Vec<String>,
+    pub json: Value,
+}
+
+pub struct Honest {
+    pub spec: ChainSpec,
+    pub chain: Vec<Blk>,
+    pub up_to: u64,
+    /// beacon of the legacy certificate: the last block of the last complete block range (None = no such range yet)
+    pub up_to_legacy: Option<u64>,
+    /// signed protocol messages (builder output + the parts every certificate carries)
+    pub pm_legacy: ProtocolMessage,
+    pub pm_v2: ProtocolMessage,
+    pub cert_legacy: CertificateMessage,
+    pub cert_v2: CertificateMessage,
+    pub legacy: Vec<Response>,
+    pub v2_tx: Vec<Response>,
+    pub v2_blk: Vec<Response>,
+    /// ground truth: what the signed roots cover
+    pub certified_legacy: BTreeSet<String>,
+    /// (tx hash, block hash, block number, slot)
+    pub certified_tx: BTreeSet<(String, String, u64, u64)>,
+    /// (block hash, block number, slot)
+    pub certified_blk: BTreeSet<(String, u64, u64)>,
+}
+
+fn with_common_parts(mut pm: ProtocolMessage, spec: &ChainSpec) -> ProtocolMessage {
+    pm.set_message_part(ProtocolMessagePartKey::NextAggregateVerificationKey, format!("avk-{:x}", spec.seed));
+    pm.set_message_part(ProtocolMessagePartKey::NextProtocolParameters, "protocol-parameters-hash".to_string());
+    pm.set_message_part(ProtocolMessagePartKey::CurrentEpoch, spec.epoch.to_string());
+    pm
+}
+
+fn certificate(hash: &str, pm: &ProtocolMessage, epoch: u64) -> CertificateMessage {
+    CertificateMessage {
+        hash: hash.to_string(),
+        epoch: Epoch(epoch),
+        protocol_message: pm.clone(),
+        signed_message: pm.compute_hash(),
+        ..CertificateMessage::dummy()
+    }
+}
+
+/// the queries of a chain: a pure function of the spec
+fn queries(spec: &ChainSpec, chain: &[Blk], blocks: bool) -> Vec<Vec<String>> {
+    let all: Vec<(usize, String)> = if blocks {
+        chain.iter().enumerate().map(|(i, b)| (i, b.hash.clone())).collect()
+    } else {
+        chain.iter().enumerate().flat_map(|(i, b)| b.txs.iter().map(move |t| (i, t.clone()))).collect()
+    };
+    let tag = if blocks { 7000 } else { 3000 };
+    let r = |k: u64| mix(spec.seed, tag + k);
+    let absent = |k: u64| hex_hash(spec.seed ^ 0xdead, k, 9);
+    let mut qs: Vec<Vec<String>> = vec![];
+    if all.is_empty() {
+        return vec![vec![absent(1)], vec![absent(2), absent(3)]];
+    }
+    let pick = |k: u64| all[(r(k) % all.len() as u64) as usize].clone();
+    // one present item
+    qs.push(vec![pick(1).1]);
+    // a few present items across ranges
+    qs.push((0..2 + r(2) % 5).map(|j| pick(10 + j).1).collect());
+    // every item of one block range
+    let range_start = (chain[pick(3).0].number / 15) * 15;
+    qs.push(all.iter().filter(|(i, _)| chain[*i].number / 15 * 15 == range_start).map(|x| x.1.clone()).collect());
+    // present and absent mixed
+    qs.push(vec![pick(4).1, absent(4), pick(5).1, absent(5)]);
+    // everything
+    qs.push(all.iter().map(|x| x.1.clone()).collect());
+    // two neighbours (adjacent leaves of one sub-tree, if in the same range)
+    let p = (r(6) % all.len() as u64) as usize;
+    qs.push(all[p..(p + 2).min(all.len())].iter().map(|x| x.1.clone()).collect());
+    for q in qs.iter_mut() {
+        let mut seen = BTreeSet::new();
+        q.retain(|h| seen.insert(h.clone()));
+    }
+    qs
+}
+
+async fn build_honest(spec: &ChainSpec) -> anyhow::Result<Honest> {
+    let chain = chain_of(spec);
+    anyhow::ensure!(!chain.is_empty(), "empty chain");
+    let up_to_idx = pick_index(spec.up_to_idx, chain.len());
+    let up_to = chain[up_to_idx].number;
+    let scratch = Scratch::new("c11");
+    let db = scratch.path().join("chain.sqlite3");
+    let pool = Arc::new(
+        ConnectionBuilder::open_file(&db)
+            .with_options(&[ConnectionOptions::EnableForeignKeys])
+            .with_migrations(mithril_persistence::database::cardano_transaction_migration::get_migrations())
+            .build_pool(2)?,
+    );
+    let repo = Arc::new(AggregatorCardanoChainDataRepository::new(pool));
+    // the node has produced the blocks up to the signed beacon (the real scanner stops at the beacon)
+    let scanned: Vec<ScannedBlock> = chain[..=up_to_idx]
+        .iter()
+        .map(|b| ScannedBlock::new(hex::decode(&b.hash).unwrap(), BlockNumber(b.number), SlotNumber(b.slot), b.txs.clone()))
+        .collect();
+    let scanner = Arc::new(DumbBlockScanner::new().forwards(vec![scanned]));
+    let importer = Arc::new(CardanoChainDataImporter::new(scanner, repo.clone(), logger()));
+    let agg_importer = Arc::new(AggregatorChainDataImporter::new(importer));
+    let legacy_builder = CardanoTransactionsSignableBuilder::<MKTreeStoreInMemory>::new(agg_importer.clone(), repo.clone());
+    let v2_builder = CardanoBlocksTransactionsSignableBuilder::<MKTreeStoreInMemory>::new(agg_importer.clone(), repo.clone());
+    // legacy beacons are always the last block of a complete block range (CardanoTransactionsSigningConfig:
+    // multiple of the range length, minus one); a chain without a complete range has no legacy certificate
+    let up_to_legacy = ((up_to + 1) / 15 * 15).checked_sub(1).filter(|b| *b >= chain[0].number);
+    let pm_legacy = match up_to_legacy {
+        Some(b) => legacy_builder.compute_protocol_message(BlockNumber(b)).await.ok(),
+        None => None,
+    };
+    let pm_v2 = v2_builder.compute_protocol_message((BlockNumber(up_to), BlockNumberOffset(spec.offset))).await?;
+    let pm_legacy = with_common_parts(pm_legacy.unwrap_or_default(), spec);
+    let pm_v2 = with_common_parts(pm_v2, spec);
+    let has_legacy = pm_legacy.get_message_part(&ProtocolMessagePartKey::CardanoTransactionsMerkleRoot).is_some();
+    let cert_legacy = certificate(&format!("cert-ctx-{:x}", spec.seed), &pm_legacy, spec.epoch);
+    let cert_v2 = certificate(&format!("cert-cbtx-{:x}", spec.seed), &pm_v2, spec.epoch);
+
+    let mut legacy = vec![];
+    if let (true, Some(b)) = (has_legacy, up_to_legacy) {
+        let prover = LegacyMithrilProverService::<MKTreeStoreInMemory>::new(repo.clone(), repo.clone(), 1, logger());
+        prover.compute_cache(BlockNumber(b)).await?;
+        for q in queries(spec, &chain, false) {
+            let set_proofs = prover.compute_transactions_proofs(BlockNumber(b), &q).await?;
+            let certified: Vec<String> = set_proofs.iter().flat_map(|p| p.transactions_hashes().to_vec()).collect();
+            let non_certified: Vec<String> = q.iter().filter(|h| !certified.contains(h)).cloned().collect();
+            let mut parts = vec![];
+            for sp in set_proofs {
+                parts.push(sp.try_into()?);
+            }
+            let msg = CardanoTransactionsProofsMessage::new(&cert_legacy.hash, parts, non_certified, BlockNumber(b));
+            legacy.push(Response { query: q, json: serde_json::to_value(&msg)? });
+        }
+    }
+    let prover = MithrilProverService::<MKTreeStoreInMemory>::new(repo.clone(), repo.clone(), 1, logger());
+    prover.compute_cache(BlockNumber(up_to)).await?;
+    let mut v2_tx = vec![];
+    for q in queries(spec, &chain, false) {
+        let (certified, non_certified) = match prover.compute_transactions_proofs(BlockNumber(up_to), &q).await? {
+            Some(sp) => {
+                let hs: Vec<String> = sp.transactions_hashes().cloned().collect();
+                (Some(sp.try_into()?), q.iter().filter(|h| !hs.contains(h)).cloned().collect())
+            }
+            None => (None, q.clone()),
+        };
+        let msg = CardanoTransactionsProofsV2Message::new(&cert_v2.hash, certified, non_certified, BlockNumber(up_to), BlockNumberOffset(spec.offset));
+        v2_tx.push(Response { query: q, json: serde_json::to_value(&msg)? });
+    }
+    let mut v2_blk = vec![];
+    for q in queries(spec, &chain, true) {
+        let (certified, non_certified) = match prover.compute_blocks_proofs(BlockNumber(up_to), &q).await? {
+            Some(sp) => {
+                let hs: Vec<String> = sp.blocks_hashes().cloned().collect();
+                (Some(sp.try_into()?), q.iter().filter(|h| !hs.contains(h)).cloned().collect())
+            }
+            None => (None, q.clone()),
+        };
+        let msg = CardanoBlocksProofsMessage::new(&cert_v2.hash, certified, non_certified, BlockNumber(up_to), BlockNumberOffset(spec.offset));
+        v2_blk.push(Response { query: q, json: serde_json::to_value(&msg)? });
+    }
+    // ground truth. Legacy roots exist for complete block ranges only.
+    let certified_legacy = match (has_legacy, up_to_legacy) {
+        (true, Some(bound)) => chain.iter().filter(|b| b.number <= bound).flat_map(|b| b.txs.iter().cloned()).collect(),
+        _ => BTreeSet::new(),
+    };
+    let certified_tx = chain
+        .iter()
+        .filter(|b| b.number <= up_to)
+        .flat_map(|b| b.txs.iter().map(move |t| (t.clone(), b.hash.clone(), b.number, b.slot)))
+        .collect();
+    let certified_blk = chain.iter().filter(|b| b.number <= up_to).map(|b| (b.hash.clone(), b.number, b.slot)).collect();
+    drop(scratch);
+    Ok(Honest { spec: spec.clone(), chain, up_to, up_to_legacy: up_to_legacy.filter(|_| has_legacy), pm_legacy, pm_v2, cert_legacy, cert_v2, legacy, v2_tx, v2_blk, certified_legacy, certified_tx, certified_blk })
+}
+
+static HONEST: OnceLock<Mutex<HashMap<String, Option<Arc<Honest>>>>> = OnceLock::new();
+
+/// cached honest side of a chain (chains come from a per-run pool; a replay rebuilds on demand)
+pub fn honest_cached(spec: &ChainSpec) -> Option<Arc<Honest>> {
+    let key = serde_json::to_string(spec).unwrap_or_default();
+    let cache = HONEST.get_or_init(Default::default);
+    if let Some(h) = cache.lock().unwrap().get(&key) {
+        return h.clone();
+    }
+    // import() runs on a blocking thread and re-enters the runtime handle: a (small) multi-thread runtime
+    let rt = tokio::runtime::Builder::new_multi_thread().worker_threads(1).enable_all().build().expect("runtime");
+    let h = match catch(|| rt.block_on(build_honest(spec))) {
+        Ok(Ok(h)) => Some(Arc::new(h)),
+        _ => None,
+    };
+    let mut g = cache.lock().unwrap();
+    if g.len() > 30_000 {
+        g.clear();
+    }
+    g.insert(key, h.clone());
+    h
+}
+
+// ------------------------------------------------------------------------------------------- tampering
+
+#[derive(Clone, Copy, Debug, Serialize, Deserialize, PartialEq, Eq)]
+pub enum Fmt {
+    Legacy,
+    V2Tx,
+    V2Blk,
+}
+
+#[derive(Clone, Copy, Debug, Serialize, Deserialize, PartialEq, Eq)]
+pub enum NumEdit {
+    Plus(u8),
+    Minus(u8),
+    Zero,
+    Max,
+    Set(u64),
+}
+
+impl NumEdit {
+    fn apply(&self, v: u64) -> u64 {
+        match *self {
+            NumEdit::Plus(d) => v.saturating_add(1 + d as u64 % 20),
+            NumEdit::Minus(d) => v.saturating_sub(1 + d as u64 % 20),
+            NumEdit::Zero => 0,
+            NumEdit::Max => u64::MAX,
+            NumEdit::Set(x) => x,
+        }
+    }
+}
+
+#[derive(Clone, Copy, Debug, Serialize, Deserialize, PartialEq, Eq)]
+pub enum CertSel {
+    /// the certificate the response names
+    Matching,
+    /// the certificate of the other transaction format for the same chain
+    OtherFormat,
+    /// the certificate of the same format for another chain
+    Foreign,
+}
+
+#[derive(Clone, Copy, Debug, Serialize, Deserialize, PartialEq, Eq)]
+pub enum Field {
+    TxHash,
+    BlockHash,
+    BlockNumber,
+    Slot,
+}
+
+#[derive(Clone, Copy, Debug, Serialize, Deserialize, PartialEq, Eq)]
+pub enum EmptyKind {
+    EmptyList,
+    Null,
+    NoItemsKeepProof,
+}
+
+#[derive(Clone, Copy, Debug, Serialize, Deserialize, PartialEq, Eq)]
+pub enum Tamper {
+    AddAbsent { at: u16, seed: u64 },
+    AddUnproven { at: u16, pick: u16 },
+    AddTail { at: u16, pick: u16 },
+    PromoteNonCertified { at: u16, pick: u16 },
+    EditHashChar { at: u16, item: u16, field: Field, pos: u16 },
+    EditNumber { at: u16, item: u16, field: Field, edit: NumEdit },
+    MoveToBlock { at: u16, item: u16, block: u16 },
+    SwapField { at: u16, a: u16, b: u16, field: Field },
+    DropItem { at: u16, item: u16 },
+    DupItem { at: u16, item: u16 },
+    SpliceSecond,
+    SpliceForeign { front: bool },
+    SwapProofs { a: u16, b: u16 },
+    ReplaceProofForeign { at: u16 },
+    ReplaceItemsForeign { at: u16 },
+    Empty(EmptyKind),
+    DetachSubProof { at: u16, which: u16 },
+    DetachAllSubProofs { at: u16 },
+    PromoteSubProof { at: u16, which: u16 },
+    /// a sub-proof of another chain's response (and its items) added under the own master proof
+    GraftForeignSubProof { at: u16, which: u16, replace: bool },
+    LeafDupPosition { at: u16, leaf: u16, seed: u64, fake_first: bool },
+    LeafAdd { at: u16, seed: u64 },
+    LeafReplace { at: u16, leaf: u16, seed: u64 },
+    SiblingBoundaryMove { at: u16, pair: u16, k: i8 },
+    ProofSize { at: u16, sub: bool, edit: NumEdit },
+    DropProofItem { at: u16, sub: bool, i: u16 },
+    FlipRoot { at: u16, byte: u8 },
+    LatestBlock(NumEdit),
+    Offset(NumEdit),
+    CertificateHash,
+    AsLegacy,
+    AsV2,
+}
+
+fn tamper_name(t: &Tamper) -> String {
+    let s = format!("{t:?}");
+    let head = s.split([' ', '{', '(']).next().unwrap_or("").to_string();
+    match t {
+        Tamper::EditHashChar { field, .. } | Tamper::EditNumber { field, .. } | Tamper::SwapField { field, .. } => format!("{head}:{field:?}"),
+        Tamper::Empty(k) => format!("{head}:{k:?}"),
+        Tamper::SiblingBoundaryMove { k, .. } => format!("{head}:{}", if *k > 0 { "right-to-left" } else { "left-to-right" }),
+        Tamper::LeafDupPosition { fake_first, .. } => format!("{head}:{}", if *fake_first { "fake-first" } else { "fake-last" }),
+        _ => head,
+    }
+}
+
+fn container_key(fmt: Fmt) -> &'static str {
+    match fmt {
+        Fmt::Legacy | Fmt::V2Tx => "certified_transactions",
+        Fmt::V2Blk => "certified_blocks",
+    }
+}
+
+fn items_key(fmt: Fmt) -> &'static str {
+    match fmt {
+        Fmt::Legacy => "transactions_hashes",
+        _ => "items",
+    }
+}
+
+fn non_certified_key(fmt: Fmt) -> &'static str {
+    match fmt {
+        Fmt::V2Blk => "non_certified_blocks",
+        _ => "non_certified_transactions",
+    }
+}
+
+fn n_set_proofs(m: &Value, fmt: Fmt) -> usize {
+    let c = &m[container_key(fmt)];
+    match fmt {
+        Fmt::Legacy => c.as_array().map(|a| a.len()).unwrap_or(0),
+        _ => c.is_object() as usize,
+    }
+}
+
+fn set_proof_mut(m: &mut Value, fmt: Fmt, raw: u16) -> Option<&mut Value> {
+    let n = n_set_proofs(m, fmt);
+    if n == 0 {
+        return None;
+    }
+    let c = &mut m[container_key(fmt)];
+    match fmt {
+        Fmt::Legacy => c.as_array_mut()?.get_mut(pick_index(raw, n)),
+        _ => Some(c),
+    }
+}
+
+fn items_mut(m: &mut Value, fmt: Fmt, raw: u16) -> Option<&mut Vec<Value>> {
+    set_proof_mut(m, fmt, raw)?.get_mut(items_key(fmt))?.as_array_mut()
+}
+
+fn tx_item(t: &(String, String, u64, u64)) -> Value {
+    json!({"transaction_hash": t.0, "block_hash": t.1, "block_number": t.2, "slot_number": t.3})
+}
+
+fn blk_item(b: &(String, u64, u64)) -> Value {
+    json!({"block_hash": b.0, "block_number": b.1, "slot_number": b.2})
+}
+
+/// the Merkle leaf the verifier derives from a reported item
+fn leaf_of(fmt: Fmt, item: &Value) -> Option<Vec<u8>> {
+    Some(match fmt {
+        Fmt::Legacy => item.as_str()?.as_bytes().to_vec(),
+        Fmt::V2Tx => format!(
+            "Tx/{}/{}/{}/{}",
+            item["transaction_hash"].as_str()?,
+            item["block_hash"].as_str()?,
+            item["block_number"].as_u64()?,
+            item["slot_number"].as_u64()?
+        )
+        .into_bytes(),
+        Fmt::V2Blk => format!("Block/{}/{}/{}", item["block_hash"].as_str()?, item["block_number"].as_u64()?, item["slot_number"].as_u64()?).into_bytes(),
+    })
+}
+
+fn bytes_json(b: &[u8]) -> Value {
+    Value::Array(b.iter().map(|x| Value::from(*x)).collect())
+}
+
+fn json_bytes(v: &Value) -> Option<Vec<u8>> {
+    v.as_array()?.iter().map(|x| x.as_u64().and_then(|n| u8::try_from(n).ok())).collect()
+}
+
+/// wire encodings of the proof: the legacy message carries JSON-hex, the v2 messages bytes-hex (bincode)
+fn decode_proof(fmt: Fmt, hexs: &str) -> Option<ProtocolMkProof> {
+    match fmt {
+        Fmt::Legacy => ProtocolMkProof::from_json_hex(hexs).ok(),
+        _ => ProtocolMkProof::from_bytes_hex(hexs).ok(),
+    }
+}
+
+fn proof_view(fmt: Fmt, hexs: &str) -> Option<Value> {
+    serde_json::to_value(&*decode_proof(fmt, hexs)?).ok()
+}
+
+fn proof_hex(fmt: Fmt, v: &Value) -> Option<String> {
+    let p: MKMapProof<BlockRange> = serde_json::from_value(v.clone()).ok()?;
+    match fmt {
+        Fmt::Legacy => ProtocolMkProof::new(p).to_json_hex().ok(),
+        _ => ProtocolMkProof::new(p).to_bytes_hex().ok(),
+    }
+}
+
+/// the MKProof (JSON view) that holds the item leaves of sub-proof `which` (or the master proof when there is none)
+fn leaf_holder_mut(pv: &mut Value, which: u16) -> Option<&mut Value> {
+    let n = pv["sub_proofs"].as_array().map(|a| a.len()).unwrap_or(0);
+    if n == 0 {
+        pv.get_mut("master_proof")
+    } else {
+        pv["sub_proofs"].as_array_mut()?.get_mut(pick_index(which, n))?.get_mut(1)?.get_mut("master_proof")
+    }
+}
+
+/// run `f` on the decoded proof of one set proof and write it back
+fn with_proof(m: &mut Value, fmt: Fmt, at: u16, f: impl FnOnce(&mut Value) -> bool) -> bool {
+    let Some(sp) = set_proof_mut(m, fmt, at) else { return false };
+    let Some(hexs) = sp["proof"].as_str() else { return false };
+    let Some(mut pv) = proof_view(fmt, hexs) else { return false };
+    if !f(&mut pv) {
+        return false;
+    }
+    let Some(h) = proof_hex(fmt, &pv) else { return false };
+    sp["proof"] = Value::from(h);
+    true
+}
+
+struct TamperCtx<'a> {
+    h: &'a Honest,
+    foreign: &'a Honest,
+    second: Option<&'a Response>,
+    foreign_resp: Option<&'a Response>,
+}
+
+fn fake_item(fmt: Fmt, seed: u64, h: &Honest) -> Value {
+    let b = &h.chain[(mix(seed, 5) % h.chain.len() as u64) as usize];
+    match fmt {
+        Fmt::Legacy => Value::from(hex_hash(seed, 77, 1)),
+        Fmt::V2Tx => tx_item(&(hex_hash(seed, 77, 1), b.hash.clone(), b.number, b.slot)),
+        Fmt::V2Blk => blk_item(&(hex_hash(seed, 77, 2), b.number, b.slot)),
+    }
+}
+
+/// genuine items of the chain: (certified under the format's beacon, beyond it)
+fn genuine_items(fmt: Fmt, h: &Honest) -> (Vec<Value>, Vec<Value>) {
+    match fmt {
+        Fmt::Legacy => {
+            let cert: Vec<Value> = h.certified_legacy.iter().map(|t| Value::from(t.clone())).collect();
+            let tail = h.chain.iter().flat_map(|b| b.txs.iter()).filter(|t| !h.certified_legacy.contains(*t)).map(|t| Value::from(t.clone())).collect();
+            (cert, tail)
+        }
+        Fmt::V2Tx => (
+            h.certified_tx.iter().map(tx_item).collect(),
+            h.chain.iter().filter(|b| b.number > h.up_to).flat_map(|b| b.txs.iter().map(move |t| tx_item(&(t.clone(), b.hash.clone(), b.number, b.slot)))).collect(),
+        ),
+        Fmt::V2Blk => (
+            h.certified_blk.iter().map(blk_item).collect(),
+            h.chain.iter().filter(|b| b.number > h.up_to).map(|b| blk_item(&(b.hash.clone(), b.number, b.slot))).collect(),
+        ),
+    }
+}
+
+fn field_key(fmt: Fmt, f: Field) -> Option<&'static str> {
+    match (fmt, f) {
+        (Fmt::Legacy, Field::TxHash) => Some(""),
+        (Fmt::Legacy, _) => None,
+        (Fmt::V2Blk, Field::TxHash) => None,
+        (_, Field::TxHash) => Some("transaction_hash"),
+        (_, Field::BlockHash) => Some("block_hash"),
+        (_, Field::BlockNumber) => Some("block_number"),
+        (_, Field::Slot) => Some("slot_number"),
+    }
+}
+
+/// apply one tampering; false = not applicable / nothing changed. `fmt` may change (format confusion).
+fn apply(m: &mut Value, fmt: &mut Fmt, t: &Tamper, cx: &TamperCtx) -> bool {
+    let before = m.clone();
+    let f = *fmt;
+    match *t {
+        Tamper::AddAbsent { at, seed } => {
+            let it = fake_item(f, seed, cx.h);
+            let Some(items) = items_mut(m, f, at) else { return false };
+            items.push(it);
+        }
+        Tamper::AddUnproven { at, pick } | Tamper::AddTail { at, pick } => {
+            let (cert, tail) = genuine_items(f, cx.h);
+            let src = if matches!(t, Tamper::AddTail { .. }) { tail } else { cert };
+            let Some(items) = items_mut(m, f, at) else { return false };
+            let cand: Vec<Value> = src.into_iter().filter(|c| !items.contains(c)).collect();
+            if cand.is_empty() {
+                return false;
+            }
+            items.push(cand[pick_index(pick, cand.len())].clone());
+        }
+        Tamper::PromoteNonCertified { at, pick } => {
+            let nc = m[non_certified_key(f)].as_array().cloned().unwrap_or_default();
+            if nc.is_empty() {
+                return false;
+            }
+            let hsh = nc[pick_index(pick, nc.len())].as_str().unwrap_or("").to_string();
+            let it = match f {
+                Fmt::Legacy => Value::from(hsh.clone()),
+                _ => {
+                    let mut it = fake_item(f, 1, cx.h);
+                    it[if f == Fmt::V2Tx { "transaction_hash" } else { "block_hash" }] = Value::from(hsh.clone());
+                    it
+                }
+            };
+            let Some(items) = items_mut(m, f, at) else { return false };
+            items.push(it);
+            if let Some(a) = m[non_certified_key(f)].as_array_mut() {
+                a.retain(|x| x.as_str() != Some(&hsh));
+            }
+        }
+        Tamper::EditHashChar { at, item, field, pos } => {
+            let Some(key) = field_key(f, field) else { return false };
+            let Some(items) = items_mut(m, f, at) else { return false };
+            if items.is_empty() {
+                return false;
+            }
+            let i = pick_index(item, items.len());
+            let target = if key.is_empty() { &mut items[i] } else { &mut items[i][key] };
+            let Some(s) = target.as_str() else { return false };
+            if s.is_empty() {
+                return false;
+            }
+            let mut b = s.as_bytes().to_vec();
+            let p = pick_index(pos, b.len());
+            b[p] = match b[p] {
+                b'0'..=b'8' => b[p] + 1,
+                b'9' => b'a',
+                b'a'..=b'e' => b[p] + 1,
+                _ => b'0',
+            };
+            *target = Value::from(String::from_utf8_lossy(&b).to_string());
+        }
+        Tamper::EditNumber { at, item, field, edit } => {
+            let Some(key) = field_key(f, field) else { return false };
+            if key.is_empty() || !matches!(field, Field::BlockNumber | Field::Slot) {
+                return false;
+            }
+            let Some(items) = items_mut(m, f, at) else { return false };
+            if items.is_empty() {
+                return false;
+            }
+            let i = pick_index(item, items.len());
+            let Some(v) = items[i][key].as_u64() else { return false };
+            items[i][key] = Value::from(edit.apply(v));
+        }
+        Tamper::MoveToBlock { at, item, block } => {
+            if f != Fmt::V2Tx {
+                return false;
+            }
+            let b = &cx.h.chain[pick_index(block, cx.h.chain.len())];
+            let Some(items) = items_mut(m, f, at) else { return false };
+            if items.is_empty() {
+                return false;
+            }
+            let i = pick_index(item, items.len());
+            items[i]["block_hash"] = Value::from(b.hash.clone());
+            items[i]["block_number"] = Value::from(b.number);
+            items[i]["slot_number"] = Value::from(b.slot);
+        }
+        Tamper::SwapField { at, a, b, field } => {
+            let Some(key) = field_key(f, field) else { return false };
+            let Some(items) = items_mut(m, f, at) else { return false };
+            if items.len() < 2 {
+                return false;
+            }
+            let a = pick_index(a, items.len());
+            let mut b = pick_index(b, items.len());
+            if a == b {
+                b = (a + 1) % items.len();
+            }
+            if key.is_empty() {
+                items.swap(a, b);
+            } else {
+                let (va, vb) = (items[a][key].clone(), items[b][key].clone());
+                items[a][key] = vb;
+                items[b][key] = va;
+            }
+        }
+        Tamper::DropItem { at, item } => {
+            let Some(items) = items_mut(m, f, at) else { return false };
+            if items.is_empty() {
+                return false;
+            }
+            let i = pick_index(item, items.len());
+            items.remove(i);
+        }
+        Tamper::DupItem { at, item } => {
+            let Some(items) = items_mut(m, f, at) else { return false };
+            if items.is_empty() {
+                return false;
+            }
+            let i = pick_index(item, items.len());
+            let x = items[i].clone();
+            items.push(x);
+        }
+        Tamper::SpliceSecond | Tamper::SpliceForeign { .. } => {
+            let (src, front) = match t {
+                Tamper::SpliceSecond => (cx.second, false),
+                Tamper::SpliceForeign { front } => (cx.foreign_resp, *front),
+                _ => unreachable!(),
+            };
+            let Some(src) = src else { return false };
+            match f {
+                Fmt::Legacy => {
+                    let add = src.json[container_key(f)].as_array().cloned().unwrap_or_default();
+                    if add.is_empty() {
+                        return false;
+                    }
+                    let Some(a) = m[container_key(f)].as_array_mut() else { return false };
+                    if front {
+                        let mut n = add;
+                        n.extend(a.drain(..));
+                        *a = n;
+                    } else {
+                        a.extend(add);
+                    }
+                }
+                _ => {
+                    // a single set proof: take over the other response's items in addition to the own ones
+                    let add = src.json[container_key(f)]["items"].as_array().cloned().unwrap_or_default();
+                    if add.is_empty() {
+                        return false;
+                    }
+                    let Some(items) = items_mut(m, f, 0) else { return false };
+                    for x in add {
+                        if !items.contains(&x) {
+                            items.push(x);
+                        }
+                    }
+                }
+            }
+        }
+        Tamper::SwapProofs { a, b } => {
+            let n = n_set_proofs(m, f);
+            if n < 2 {
+                return false;
+            }
+            let a = pick_index(a, n);
+            let mut b = pick_index(b, n);
+            if a == b {
+                b = (a + 1) % n;
+            }
+            let arr = m[container_key(f)].as_array_mut().unwrap();
+            let (pa, pb) = (arr[a]["proof"].clone(), arr[b]["proof"].clone());
+            arr[a]["proof"] = pb;
+            arr[b]["proof"] = pa;
+        }
+        Tamper::ReplaceProofForeign { at } | Tamper::ReplaceItemsForeign { at } => {
+            let Some(src) = cx.foreign_resp else { return false };
+            let other = match f {
+                Fmt::Legacy => src.json[container_key(f)].get(0).cloned(),
+                _ => Some(src.json[container_key(f)].clone()),
+            };
+            let Some(other) = other.filter(|o| o.is_object()) else { return false };
+            let Some(sp) = set_proof_mut(m, f, at) else { return false };
+            let key = if matches!(t, Tamper::ReplaceProofForeign { .. }) { "proof" } else { items_key(f) };
+            sp[key] = other[key].clone();
+        }
+        Tamper::Empty(kind) => match (kind, f) {
+            (EmptyKind::EmptyList, Fmt::Legacy) => m[container_key(f)] = json!([]),
+            (EmptyKind::Null, _) => m[container_key(f)] = Value::Null,
+            (EmptyKind::NoItemsKeepProof, _) => {
+                let Some(items) = items_mut(m, f, 0) else { return false };
+                items.clear();
+            }
+            _ => return false,
+        },
+        Tamper::DetachSubProof { at, which } => {
+            return with_proof(m, f, at, |pv| {
+                let Some(a) = pv["sub_proofs"].as_array_mut() else { return false };
+                if a.is_empty() {
+                    return false;
+                }
+                let i = pick_index(which, a.len());
+                a.remove(i);
+                true
+            });
+        }
+        Tamper::DetachAllSubProofs { at } => {
+            return with_proof(m, f, at, |pv| {
+                let Some(a) = pv["sub_proofs"].as_array_mut() else { return false };
+                if a.is_empty() {
+                    return false;
+                }
+                a.clear();
+                true
+            });
+        }
+        Tamper::PromoteSubProof { at, which } => {
+            return with_proof(m, f, at, |pv| {
+                let Some(a) = pv["sub_proofs"].as_array() else { return false };
+                if a.is_empty() {
+                    return false;
+                }
+                let sub = a[pick_index(which, a.len())][1].clone();
+                *pv = sub;
+                true
+            });
+        }
+        Tamper::GraftForeignSubProof { at, which, replace } => {
+            let Some(src) = cx.foreign_resp else { return false };
+            let other = match f {
+                Fmt::Legacy => src.json[container_key(f)].get(0).cloned(),
+                _ => Some(src.json[container_key(f)].clone()),
+            };
+            let Some(other) = other.filter(|o| o.is_object()) else { return false };
+            let Some(ov) = other["proof"].as_str().and_then(|s| proof_view(f, s)) else { return false };
+            let subs = ov["sub_proofs"].as_array().cloned().unwrap_or_default();
+            if subs.is_empty() {
+                return false;
+            }
+            let graft = subs[pick_index(which, subs.len())].clone();
+            let ok = with_proof(m, f, at, |pv| {
+                let Some(a) = pv["sub_proofs"].as_array_mut() else { return false };
+                if replace && !a.is_empty() {
+                    let i = pick_index(which.rotate_left(7), a.len());
+                    a[i] = graft;
+                } else {
+                    a.push(graft);
+                }
+                true
+            });
+            if !ok {
+                return false;
+            }
+            let add = other[items_key(f)].as_array().cloned().unwrap_or_default();
+            if let Some(items) = items_mut(m, f, at) {
+                if replace {
+                    items.clear();
+                }
+                items.extend(add);
+            }
+        }
+        Tamper::LeafDupPosition { at, leaf, seed, fake_first } => {
+            let it = fake_item(f, seed, cx.h);
+            let Some(lb) = leaf_of(f, &it) else { return false };
+            let ok = with_proof(m, f, at, |pv| {
+                let Some(holder) = leaf_holder_mut(pv, leaf) else { return false };
+                let Some(leaves) = holder["inner_leaves"].as_array_mut() else { return false };
+                if leaves.is_empty() {
+                    return false;
+                }
+                let i = pick_index(leaf.rotate_left(5), leaves.len());
+                let pos = leaves[i][0].clone();
+                let entry = json!([pos, {"hash": bytes_json(&lb)}]);
+                if fake_first {
+                    leaves.insert(i, entry);
+                } else {
+                    leaves.insert(i + 1, entry);
+                }
+                true
+            });
+            if !ok {
+                return false;
+            }
+            if let Some(items) = items_mut(m, f, at) {
+                items.push(it);
+            }
+        }
+        Tamper::LeafAdd { at, seed } => {
+            let it = fake_item(f, seed, cx.h);
+            let Some(lb) = leaf_of(f, &it) else { return false };
+            let ok = with_proof(m, f, at, |pv| {
+                let Some(holder) = leaf_holder_mut(pv, seed as u16) else { return false };
+                let Some(leaves) = holder["inner_leaves"].as_array_mut() else { return false };
+                let maxp = leaves.iter().filter_map(|l| l[0].as_u64()).max().unwrap_or(0);
+                let pos = match seed % 3 {
+                    0 => maxp + 1,
+                    1 => maxp + 2,
+                    _ => seed % (maxp + 2),
+                };
+                leaves.push(json!([pos, {"hash": bytes_json(&lb)}]));
+                true
+            });
+            if !ok {
+                return false;
+            }
+            if let Some(items) = items_mut(m, f, at) {
+                items.push(it);
+            }
+        }
+        Tamper::LeafReplace { at, leaf, seed } => {
+            let it = fake_item(f, seed, cx.h);
+            let Some(lb) = leaf_of(f, &it) else { return false };
+            let mut old: Option<Vec<u8>> = None;
+            let ok = with_proof(m, f, at, |pv| {
+                let Some(holder) = leaf_holder_mut(pv, leaf) else { return false };
+                let Some(leaves) = holder["inner_leaves"].as_array_mut() else { return false };
+                if leaves.is_empty() {
+                    return false;
+                }
+                let i = pick_index(leaf.rotate_left(5), leaves.len());
+                old = json_bytes(&leaves[i][1]["hash"]);
+                leaves[i][1]["hash"] = bytes_json(&lb);
+                true
+            });
+            if !ok {
+                return false;
+            }
+            if let Some(items) = items_mut(m, f, at) {
+                if let Some(p) = items.iter().position(|x| leaf_of(f, x) == old) {
+                    items[p] = it;
+                } else {
+                    items.push(it);
+                }
+            }
+        }
+        Tamper::SiblingBoundaryMove { at, pair, k } => {
+            if f != Fmt::Legacy || k == 0 {
+                return false;
+            }
+            let mut renamed: Vec<(Vec<u8>, Vec<u8>)> = vec![];
+            let ok = with_proof(m, f, at, |pv| {
+                // all (holder index, i, j) with leaves at adjacent positions = the two children of one inner node
+                let nsub = pv["sub_proofs"].as_array().map(|a| a.len()).unwrap_or(0);
+                let mut pairs = vec![];
+                for s in 0..nsub.max(1) {
+                    let holder = if nsub == 0 { &pv["master_proof"] } else { &pv["sub_proofs"][s][1]["master_proof"] };
+                    let Some(leaves) = holder["inner_leaves"].as_array() else { continue };
+                    for (i, a) in leaves.iter().enumerate() {
+                        for (j, b) in leaves.iter().enumerate() {
+                            if let (Some(pa), Some(pb)) = (a[0].as_u64(), b[0].as_u64()) {
+                                if pb == pa + 1 {
+                                    pairs.push((s, i, j));
+                                }
+                            }
+                        }
+                    }
+                }
+                if pairs.is_empty() {
+                    return false;
+                }
+                let (s, i, j) = pairs[pick_index(pair, pairs.len())];
+                let holder = if nsub == 0 { &mut pv["master_proof"] } else { &mut pv["sub_proofs"][s][1]["master_proof"] };
+                let leaves = holder["inner_leaves"].as_array_mut().unwrap();
+                let (Some(l), Some(r)) = (json_bytes(&leaves[i][1]["hash"]), json_bytes(&leaves[j][1]["hash"])) else { return false };
+                let cat = [l.clone(), r.clone()].concat();
+                let cut = l.len() as i64 + k as i64;
+                if cut <= 0 || cut >= cat.len() as i64 {
+                    return false;
+                }
+                let (nl, nr) = (cat[..cut as usize].to_vec(), cat[cut as usize..].to_vec());
+                leaves[i][1]["hash"] = bytes_json(&nl);
+                leaves[j][1]["hash"] = bytes_json(&nr);
+                renamed.push((l, nl));
+                renamed.push((r, nr));
+                true
+            });
+            if !ok {
+                return false;
+            }
+            if let Some(items) = items_mut(m, f, at) {
+                for (old, new) in renamed {
+                    let Ok(new) = String::from_utf8(new) else { return false };
+                    if let Some(p) = items.iter().position(|x| x.as_str().map(|s| s.as_bytes()) == Some(&old[..])) {
+                        items[p] = Value::from(new);
+                    } else {
+                        items.push(Value::from(new));
+                    }
+                }
+            }
+        }
+        Tamper::ProofSize { at, sub, edit } => {
+            return with_proof(m, f, at, |pv| {
+                let holder = if sub { leaf_holder_mut(pv, 0) } else { pv.get_mut("master_proof") };
+                let Some(holder) = holder else { return false };
+                let Some(v) = holder["inner_proof_size"].as_u64() else { return false };
+                let nv = edit.apply(v);
+                holder["inner_proof_size"] = Value::from(nv);
+                nv != v
+            });
+        }
+        Tamper::DropProofItem { at, sub, i } => {
+            return with_proof(m, f, at, |pv| {
+                let holder = if sub { leaf_holder_mut(pv, i) } else { pv.get_mut("master_proof") };
+                let Some(holder) = holder else { return false };
+                let Some(a) = holder["inner_proof_items"].as_array_mut() else { return false };
+                if a.is_empty() {
+                    return false;
+                }
+                let p = pick_index(i, a.len());
+                a.remove(p);
+                true
+            });
+        }
+        Tamper::FlipRoot { at, byte } => {
+            return with_proof(m, f, at, |pv| {
+                let Some(mut b) = json_bytes(&pv["master_proof"]["inner_root"]["hash"]) else { return false };
+                if b.is_empty() {
+                    return false;
+                }
+                let n = b.len();
+                b[byte as usize % n] ^= 1;
+                pv["master_proof"]["inner_root"]["hash"] = bytes_json(&b);
+                true
+            });
+        }
+        Tamper::LatestBlock(e) => {
+            let Some(v) = m["latest_block_number"].as_u64() else { return false };
+            m["latest_block_number"] = Value::from(e.apply(v));
+        }
+        Tamper::Offset(e) => {
+            if f == Fmt::Legacy {
+                return false;
+            }
+            let Some(v) = m["security_parameter"].as_u64() else { return false };
+            m["security_parameter"] = Value::from(e.apply(v));
+        }
+        Tamper::CertificateHash => m["certificate_hash"] = Value::from("another-certificate"),
+        Tamper::AsLegacy => {
+            // the same proof presented in the legacy format: the leaf identifiers become "transaction hashes"
+            if f == Fmt::Legacy || !m[container_key(f)].is_object() {
+                return false;
+            }
+            let sp = m[container_key(f)].clone();
+            let ids: Vec<Value> = sp["items"]
+                .as_array()
+                .map(|a| a.iter().filter_map(|x| leaf_of(f, x)).map(|b| Value::from(String::from_utf8_lossy(&b).to_string())).collect())
+                .unwrap_or_default();
+            let Some(proof) = sp["proof"].as_str().and_then(|s| proof_view(f, s)).and_then(|v| proof_hex(Fmt::Legacy, &v)) else { return false };
+            *m = json!({
+                "certificate_hash": m["certificate_hash"],
+                "certified_transactions": [{"transactions_hashes": ids, "proof": proof}],
+                "non_certified_transactions": [],
+                "latest_block_number": m["latest_block_number"],
+            });
+            *fmt = Fmt::Legacy;
+        }
+        Tamper::AsV2 => {
+            // a legacy proof presented in the v2 format with the true block data of each transaction
+            if f != Fmt::Legacy {
+                return false;
+            }
+            let Some(sp) = m[container_key(f)].get(0).cloned() else { return false };
+            let items: Vec<Value> = sp["transactions_hashes"]
+                .as_array()
+                .map(|a| {
+                    a.iter()
+                        .filter_map(|x| x.as_str())
+                        .map(|hsh| match cx.h.certified_tx.iter().find(|t| t.0 == hsh) {
+                            Some(t) => tx_item(t),
+                            None => tx_item(&(hsh.to_string(), cx.h.chain[0].hash.clone(), cx.h.chain[0].number, cx.h.chain[0].slot)),
+                        })
+                        .collect()
+                })
+                .unwrap_or_default();
+            let Some(proof) = sp["proof"].as_str().and_then(|s| proof_view(f, s)).and_then(|v| proof_hex(Fmt::V2Tx, &v)) else { return false };
+            *m = json!({
+                "certificate_hash": m["certificate_hash"],
+                "certified_transactions": {"items": items, "proof": proof},
+                "non_certified_transactions": [],
+                "latest_block_number": m["latest_block_number"],
+                "security_parameter": cx.h.spec.offset,
+            });
+            *fmt = Fmt::V2Tx;
+        }
+    }
+    *m != before
+}
+
+// ------------------------------------------------------------------------------------------- client flow
+
+#[derive(Debug)]
+enum Flow {
+    Undecodable,
+    VerifyRejected,
+    MessageMismatch,
+    Panicked(String),
+    /// reported items (in the JSON item form of the format), the block number and offset the verified result
+    /// carries, and the recomputed protocol message
+    Accepted { reported: Vec<Value>, latest: Option<u64>, offset: Option<u64>, message: ProtocolMessage },
+}
+
+/// the documented client flow: verify the proofs, recompute the message, compare with the certificate
+fn client_flow(fmt: Fmt, m: &Value, cert: &CertificateMessage) -> Flow {
+    let r = catch(|| match fmt {
+        Fmt::Legacy => {
+            let Ok(msg) = serde_json::from_value::<CardanoTransactionsProofsMessage>(m.clone()) else { return Flow::Undecodable };
+            let Ok(v) = msg.verify() else { return Flow::VerifyRejected };
+            let pm = MessageBuilder::new().compute_cardano_transactions_proofs_message(cert, &v);
+            if !cert.match_message(&pm) {
+                return Flow::MessageMismatch;
+            }
+            // the legacy verified object exposes its block number only through fill_protocol_message
+            let mut probe = ProtocolMessage::new();
+            v.fill_protocol_message(&mut probe);
+            let latest = probe.get_message_part(&ProtocolMessagePartKey::LatestBlockNumber).and_then(|s| s.parse::<u64>().ok());
+            Flow::Accepted { reported: v.certified_transactions().iter().map(|t| Value::from(t.clone())).collect(), latest, offset: None, message: pm }
+        }
+        Fmt::V2Tx => {
+            let Ok(msg) = serde_json::from_value::<CardanoTransactionsProofsV2Message>(m.clone()) else { return Flow::Undecodable };
+            let Ok(v) = msg.verify() else { return Flow::VerifyRejected };
+            let pm = MessageBuilder::new().compute_cardano_transactions_proofs_v2_message(cert, &v);
+            if !cert.match_message(&pm) {
+                return Flow::MessageMismatch;
+            }
+            Flow::Accepted {
+                reported: v.certified_transactions().iter().filter_map(|t| serde_json::to_value(t).ok()).collect(),
+                latest: Some(*v.latest_certified_block_number()),
+                offset: Some(*v.security_parameter()),
+                message: pm,
+            }
+        }
+        Fmt::V2Blk => {
+            let Ok(msg) = serde_json::from_value::<CardanoBlocksProofsMessage>(m.clone()) else { return Flow::Undecodable };
+            let Ok(v) = msg.verify() else { return Flow::VerifyRejected };
+            let pm = MessageBuilder::new().compute_cardano_blocks_proofs_message(cert, &v);
+            if !cert.match_message(&pm) {
+                return Flow::MessageMismatch;
+            }
+            Flow::Accepted {
+                reported: v.certified_blocks().iter().filter_map(|t| serde_json::to_value(t).ok()).collect(),
+                latest: Some(*v.latest_certified_block_number()),
+                offset: Some(*v.security_parameter()),
+                message: pm,
+            }
+        }
+    });
+    match r {
+        Ok(f) => f,
+        Err(p) => Flow::Panicked(p),
+    }
+}
+
+#[derive(Clone, Debug, Serialize, Deserialize)]
+pub struct ProofCase {
+    pub chain: ChainSpec,
+    pub foreign: ChainSpec,
+    pub fmt: Fmt,
+    pub query: u16,
+    pub second: u16,
+    pub foreign_query: u16,
+    pub tampers: Vec<Tamper>,
+    pub cert: CertSel,
+}
+
+fn responses(h: &Honest, fmt: Fmt) -> &Vec<Response> {
+    match fmt {
+        Fmt::Legacy => &h.legacy,
+        Fmt::V2Tx => &h.v2_tx,
+        Fmt::V2Blk => &h.v2_blk,
+    }
+}
+
+fn is_certified(fmt: Fmt, item: &Value, truth: &Honest) -> bool {
+    match fmt {
+        Fmt::Legacy => item.as_str().is_some_and(|s| truth.certified_legacy.contains(s)),
+        Fmt::V2Tx => (|| {
+            Some(truth.certified_tx.contains(&(
+                item["transaction_hash"].as_str()?.to_string(),
+                item["block_hash"].as_str()?.to_string(),
+                item["block_number"].as_u64()?,
+                item["slot_number"].as_u64()?,
+            )))
+        })()
+        .unwrap_or(false),
+        Fmt::V2Blk => (|| Some(truth.certified_blk.contains(&(item["block_hash"].as_str()?.to_string(), item["block_number"].as_u64()?, item["slot_number"].as_u64()?))))()
+            .unwrap_or(false),
+    }
+}
+
+/// narrow class: the uncertified reported hashes are two neighbours whose concatenation is the concatenation of
+/// two certified hashes (characters moved from one sibling leaf to the other)
+fn is_sibling_boundary_class(reported: &[Value], truth: &Honest) -> bool {
+    let bad: Vec<&str> = reported.iter().filter_map(|x| x.as_str()).filter(|s| !truth.certified_legacy.contains(*s)).collect();
+    if bad.len() != 2 {
+        return false;
+    }
+    for cat in [format!("{}{}", bad[0], bad[1]), format!("{}{}", bad[1], bad[0])] {
+        if cat.len() == 128 && truth.certified_legacy.contains(&cat[..64]) && truth.certified_legacy.contains(&cat[64..]) {
+            return true;
+        }
+    }
+    false
+}
+
+pub const KEY_SIBLING: &str = "legacy-tx-sibling-leaf-boundary-move";
+pub const KEY_STAKE_BOUNDARY: &str = "stake-leaf-boundary-move";
+
+struct Known {
+    sibling: bool,
+    stake_boundary: bool,
+}
+
+fn proof_case(c: &ProofCase, known: &Known) -> Report {
+    let mut rep = Report::new();
+    let (Some(h), Some(foreign)) = (honest_cached(&c.chain), honest_cached(&c.foreign)) else {
+        rep.discard("chain could not be built");
+        return rep;
+    };
+    // a chain without a complete block range has no legacy certificate: use the v2 transaction format instead
+    let c = &ProofCase { fmt: if c.fmt == Fmt::Legacy && h.legacy.is_empty() { Fmt::V2Tx } else { c.fmt }, ..c.clone() };
+    let rs = responses(&h, c.fmt);
+    if rs.is_empty() {
+        rep.discard("no certificate of this format for this chain");
+        return rep;
+    }
+    let qi = pick_index(c.query, rs.len());
+    let resp = &rs[qi];
+    let second = rs.get((qi + 1 + pick_index(c.second, rs.len().saturating_sub(1).max(1))) % rs.len()).filter(|_| rs.len() > 1);
+    let frs = responses(&foreign, c.fmt);
+    let foreign_resp = if frs.is_empty() { None } else { Some(&frs[pick_index(c.foreign_query, frs.len())]) };
+    let own_cert = |f: Fmt, hh: &Honest| if f == Fmt::Legacy { hh.cert_legacy.clone() } else { hh.cert_v2.clone() };
+    rep.label(format!("fmt:{:?}", c.fmt));
+    // honest control
+    let honest_flow = client_flow(c.fmt, &resp.json, &own_cert(c.fmt, &h));
+    let expected: BTreeSet<String> = resp
+        .query
+        .iter()
+        .filter(|q| match c.fmt {
+            Fmt::Legacy => h.certified_legacy.contains(*q),
+            Fmt::V2Tx => h.certified_tx.iter().any(|t| &t.0 == *q),
+            Fmt::V2Blk => h.certified_blk.iter().any(|t| &t.0 == *q),
+        })
+        .cloned()
+        .collect();
+    match &honest_flow {
+        Flow::Accepted { reported, .. } => {
+            let got: BTreeSet<String> = reported
+                .iter()
+                .filter_map(|x| match c.fmt {
+                    Fmt::Legacy => x.as_str().map(|s| s.to_string()),
+                    Fmt::V2Tx => x["transaction_hash"].as_str().map(|s| s.to_string()),
+                    Fmt::V2Blk => x["block_hash"].as_str().map(|s| s.to_string()),
+                })
+                .collect();
+            if got != expected || reported.iter().any(|x| !is_certified(c.fmt, x, &h)) {
+                rep.label("harness-model-mismatch");
+                rep.discard("the honest response does not report what the model expects");
+                return rep;
+            }
+            rep.label(format!("honest-accepted:{:?}", c.fmt));
+        }
+        Flow::VerifyRejected if expected.is_empty() => {
+            rep.label("honest-nothing-certified");
+        }
+        other => {
+            rep.label(format!("honest-not-accepted:{}", format!("{other:?}").split([' ', '(', '{']).next().unwrap_or("")));
+            rep.discard("honest response not accepted");
+            return rep;
+        }
+    }
+    // tampering
+    let mut m = resp.json.clone();
+    let mut fmt = c.fmt;
+    let cx = TamperCtx { h: &h, foreign: &foreign, second, foreign_resp };
+    let mut names = vec![];
+    for t in &c.tampers {
+        if apply(&mut m, &mut fmt, t, &cx) {
+            names.push(tamper_name(t));
+        }
+    }
+    let _ = cx.foreign;
+    for n in &names {
+        rep.label(format!("tamper:{n}"));
+    }
+    let cert_is_legacy;
+    let (cert, truth): (CertificateMessage, &Honest) = match c.cert {
+        CertSel::Matching => {
+            cert_is_legacy = c.fmt == Fmt::Legacy;
+            (own_cert(c.fmt, &h), &h)
+        }
+        CertSel::OtherFormat => {
+            cert_is_legacy = c.fmt != Fmt::Legacy;
+            (if c.fmt == Fmt::Legacy { h.cert_v2.clone() } else { h.cert_legacy.clone() }, &h)
+        }
+        CertSel::Foreign => {
+            cert_is_legacy = c.fmt == Fmt::Legacy;
+            (own_cert(c.fmt, &foreign), &foreign)
+        }
+    };
+    rep.label(format!("cert:{:?}", c.cert));
+    if names.is_empty() && c.cert == CertSel::Matching {
+        rep.label("untampered");
+        return rep;
+    }
+    let flow = client_flow(fmt, &m, &cert);
+    let verdict = match &flow {
+        Flow::Undecodable => "undecodable",
+        Flow::VerifyRejected => "verify-rejected",
+        Flow::MessageMismatch => "message-mismatch",
+        Flow::Panicked(_) => "panicked",
+        Flow::Accepted { .. } => "accepted",
+    };
+    rep.label(format!("verdict:{verdict}"));
+    if matches!(flow, Flow::Undecodable) {
+        return rep;
+    }
+    let multi = n_set_proofs(&m, fmt) > 1;
+    if multi {
+        rep.label("several-set-proofs");
+    }
+    if names.iter().any(|n| n.starts_with("GraftForeignSubProof")) {
+        rep.label("class:foreign-sub-proof-grafted");
+    }
+    if names.iter().any(|n| n.starts_with("SpliceForeign") || n.starts_with("ReplaceProofForeign") || n.starts_with("ReplaceItemsForeign") || n.starts_with("GraftForeignSubProof")) {
+        rep.label("class:cross-root-mix");
+    }
+    if names.iter().any(|n| n == "MoveToBlock") {
+        rep.label("class:moved-to-other-block");
+    }
+    if names.iter().any(|n| n.starts_with("SiblingBoundaryMove")) {
+        rep.label("class:sibling-boundary-move");
+    }
+    if names.iter().any(|n| n.starts_with("LeafDupPosition")) {
+        rep.label("class:duplicated-leaf-position");
+    }
+    if names.iter().any(|n| n.starts_with("Detach") || n.starts_with("PromoteSubProof")) {
+        rep.label("class:detached-sub-proof");
+    }
+    if fmt != c.fmt {
+        rep.label("class:format-confusion");
+    }
+    rep.nontrivial(format!("{:?}->{fmt:?} {names:?} cert:{:?} multi:{multi} {verdict}", c.fmt, c.cert));
+    let Flow::Accepted { reported, latest, offset, message } = flow else { return rep };
+    // ---- the oracle
+    let what = |detail: String| format!("{detail}; format {:?}->{fmt:?}, tamperings {names:?}, certificate {:?}, query #{qi}", c.fmt, c.cert);
+    if cert_is_legacy != (fmt == Fmt::Legacy) {
+        rep.violation("accepted-under-certificate-of-another-entity-type", what(format!("a {fmt:?} response was accepted against a certificate of the other transaction format, reporting {} items", reported.len())));
+        return rep;
+    }
+    let signed = if cert_is_legacy { &truth.pm_legacy } else { &truth.pm_v2 };
+    if message.message_parts != signed.message_parts {
+        rep.violation("recomputed-message-differs-from-signed", what(format!("accepted with parts {:?}, signed parts {:?}", message.message_parts, signed.message_parts)));
+        return rep;
+    }
+    let (signed_latest, signed_offset) = if cert_is_legacy { (truth.up_to_legacy, None) } else { (Some(truth.up_to), Some(truth.spec.offset)) };
+    if latest != signed_latest || offset != signed_offset {
+        rep.violation(
+            "reported-block-number-or-offset-differs-from-signed",
+            what(format!("the verified result carries block number {latest:?} / offset {offset:?}, signed were {signed_latest:?} / {signed_offset:?}")),
+        );
+        return rep;
+    }
+    // every set proof under the signed root
+    let root_key = if cert_is_legacy { ProtocolMessagePartKey::CardanoTransactionsMerkleRoot } else { ProtocolMessagePartKey::CardanoBlocksTransactionsMerkleRoot };
+    let signed_root = signed.get_message_part(&root_key).cloned().unwrap_or_default();
+    let proofs: Vec<Value> = match fmt {
+        Fmt::Legacy => m[container_key(fmt)].as_array().cloned().unwrap_or_default(),
+        _ => vec![m[container_key(fmt)].clone()],
+    };
+    for (i, sp) in proofs.iter().enumerate() {
+        let root = sp["proof"].as_str().and_then(|s| decode_proof(fmt, s)).map(|p| p.compute_root().to_hex());
+        if root.as_deref() != Some(signed_root.as_str()) {
+            rep.violation("set-proof-under-another-root", what(format!("set proof #{i} has root {root:?}, the signed root is {signed_root}")));
+            return rep;
+        }
+    }
+    let bad: Vec<&Value> = reported.iter().filter(|x| !is_certified(fmt, x, truth)).collect();
+    if !bad.is_empty() {
+        if fmt == Fmt::Legacy && is_sibling_boundary_class(&reported, truth) {
+            if known.sibling {
+                rep.excluded_known(KEY_SIBLING);
+            } else {
+                rep.violation(KEY_SIBLING, what(format!("reported as certified: {bad:?} — not transactions of the chain; they are two certified neighbour hashes with characters moved across the leaf boundary")));
+            }
+        } else {
+            rep.violation("reported-item-not-certified", what(format!("reported as certified but not among the certified items of the signed chain: {bad:?}")));
+        }
+        return rep;
+    }
+    rep.label("accepted-and-rule-holds");
+    let _ = known.stake_boundary;
+    rep
+}
+
+// ------------------------------------------------------------------------------- Cardano stake distribution
+
+#[derive(Clone, Copy, Debug, Serialize, Deserialize, PartialEq, Eq)]
+pub enum StakeTamper {
+    EditIdChar { pool: u16, pos: u16 },
+    EditStake { pool: u16, edit: NumEdit },
+    /// k > 0: the last k characters of the id become the first digits of the stake; k < 0: the first |k| digits of
+    /// the stake are appended to the id
+    BoundaryMove { pool: u16, k: i8 },
+    /// two neighbouring entries re-cut: new boundary at old boundary + cut, then dl / dr trailing digits as stakes
+    Resplit { pool: u16, cut: i8, dl: u8, dr: u8 },
+    AddPool { seed: u64, stake: u64 },
+    RemovePool { pool: u16 },
+    SwapStakes { a: u16, b: u16 },
+    Epoch(NumEdit),
+}
+
+#[derive(Clone, Debug, Serialize, Deserialize)]
+pub struct StakeCase {
+    pub pools: Vec<(String, u64)>,
+    pub epoch: u64,
+    pub tampers: Vec<StakeTamper>,
+}
+
+struct FixedDistribution(BTreeMap<String, u64>);
+
+#[async_trait::async_trait]
+impl StakeDistributionRetriever for FixedDistribution {
+    async fn retrieve(&self, _epoch: Epoch) -> mithril_common::StdResult<Option<BTreeMap<String, u64>>> {
+        Ok(Some(self.0.clone()))
+    }
+}
+
+fn canonical_u64(s: &str) -> Option<u64> {
+    if s.is_empty() || !s.bytes().all(|b| b.is_ascii_digit()) {
+        return None;
+    }
+    s.parse::<u64>().ok()
+}
+
+fn stake_tamper_name(t: &StakeTamper) -> String {
+    let s = format!("{t:?}");
+    let head = s.split([' ', '{', '(']).next().unwrap_or("").to_string();
+    match t {
+        StakeTamper::BoundaryMove { k, .. } => format!("{head}:{}", if *k > 0 { "id-to-stake" } else { "stake-to-id" }),
+        _ => head,
+    }
+}
+
+fn apply_stake(entries: &mut Vec<(String, u64)>, epoch: &mut u64, t: &StakeTamper) -> bool {
+    let before = (entries.clone(), *epoch);
+    let n = entries.len();
+    match *t {
+        StakeTamper::Epoch(e) => *epoch = e.apply(*epoch),
+        StakeTamper::AddPool { seed, stake } => entries.push((bech32ish(seed, 12), stake)),
+        _ if n == 0 => return false,
+        StakeTamper::EditIdChar { pool, pos } => {
+            let e = &mut entries[pick_index(pool, n)];
+            let mut b = e.0.as_bytes().to_vec();
+            if b.is_empty() {
+                return false;
+            }
+            let p = pick_index(pos, b.len());
+            b[p] = if b[p] == b'q' { b'p' } else { b'q' };
+            e.0 = String::from_utf8_lossy(&b).to_string();
+        }
+        StakeTamper::EditStake { pool, edit } => {
+            let e = &mut entries[pick_index(pool, n)];
+            e.1 = edit.apply(e.1);
+        }
+        StakeTamper::BoundaryMove { pool, k } => {
+            let e = &mut entries[pick_index(pool, n)];
+            let st = e.1.to_string();
+            if k > 0 {
+                let k = k as usize;
+                if k >= e.0.len() {
+                    return false;
+                }
+                let (id, tail) = e.0.split_at(e.0.len() - k);
+                let Some(ns) = canonical_u64(&format!("{tail}{st}")) else { return false };
+                *e = (id.to_string(), ns);
+            } else {
+                let k = k.unsigned_abs() as usize;
+                if k == 0 || k >= st.len() {
+                    return false;
+                }
+                let Some(ns) = canonical_u64(&st[k..]) else { return false };
+                *e = (format!("{}{}", e.0, &st[..k]), ns);
+            }
+        }
+        StakeTamper::Resplit { pool, cut, dl, dr } => {
+            if n < 2 {
+                return false;
+            }
+            // neighbours in leaf order (= map order)
+            entries.sort();
+            let i = pick_index(pool, n - 1);
+            let left = format!("{}{}", entries[i].0, entries[i].1);
+            let right = format!("{}{}", entries[i + 1].0, entries[i + 1].1);
+            let cat = format!("{left}{right}");
+            let at = left.len() as i64 + cut as i64;
+            if at <= 1 || at >= cat.len() as i64 - 1 || !cat.is_char_boundary(at as usize) {
+                return false;
+            }
+            let (l, r) = cat.split_at(at as usize);
+            let cut_stake = |s: &str, d: u8| -> Option<(String, u64)> {
+                let d = 1 + d as usize % 6;
+                if d >= s.len() {
+                    return None;
+                }
+                let (id, st) = s.split_at(s.len() - d);
+                Some((id.to_string(), canonical_u64(st)?))
+            };
+            let (Some(nl), Some(nr)) = (cut_stake(l, dl), cut_stake(r, dr)) else { return false };
+            entries[i] = nl;
+            entries[i + 1] = nr;
+        }
+        StakeTamper::RemovePool { pool } => {
+            entries.remove(pick_index(pool, n));
+        }
+        StakeTamper::SwapStakes { a, b } => {
+            if n < 2 {
+                return false;
+            }
+            let a = pick_index(a, n);
+            let mut b = pick_index(b, n);
+            if a == b {
+                b = (a + 1) % n;
+            }
+            let (sa, sb) = (entries[a].1, entries[b].1);
+            entries[a].1 = sb;
+            entries[b].1 = sa;
+        }
+    }
+    (entries.clone(), *epoch) != before
+}
+
+const BECH: &[u8] = b"qpzry9x8gf2tvdw0s3jn54khce6mua7l";
+
+fn bech32ish(seed: u64, len: usize) -> String {
+    let mut s = String::from("pool1");
+    for i in 0..len {
+        s.push(BECH[(mix(seed, i as u64) % 32) as usize] as char);
+    }
+    s
+}
+
+fn leaves_of(map: &BTreeMap<String, u64>) -> Vec<String> {
+    map.iter().map(|(k, v)| format!("{k}{v}")).collect()
+}
+
+/// honest certificate + response for a stake distribution
+fn honest_stake(map: &BTreeMap<String, u64>, epoch: u64) -> Option<(CertificateMessage, ProtocolMessage, Value)> {
+    let builder = CardanoStakeDistributionSignableBuilder::new(Arc::new(FixedDistribution(map.clone())));
+    let rt = tokio::runtime::Builder::new_current_thread().enable_all().build().ok()?;
+    let pm = rt.block_on(builder.compute_protocol_message(Epoch(epoch))).ok()?;
+    let spec = ChainSpec { seed: epoch, first: 0, txs: vec![], up_to_idx: 0, offset: 0, epoch: epoch + 1 };
+    let pm = with_common_parts(pm, &spec);
+    let cert = certificate("cert-csd", &pm, epoch + 1);
+    let msg = CardanoStakeDistributionMessage {
+        epoch: Epoch(epoch),
+        hash: "csd-hash".to_string(),
+        certificate_hash: cert.hash.clone(),
+        stake_distribution: map.clone(),
+        ..CardanoStakeDistributionMessage::dummy()
+    };
+    Some((cert, pm, serde_json::to_value(&msg).ok()?))
+}
+
+/// client flow for a Cardano stake distribution response: Some(reported map, epoch) when accepted
+fn stake_flow(m: &Value, cert: &CertificateMessage) -> Result<Option<(BTreeMap<String, u64>, u64)>, String> {
+    catch(|| {
+        let Ok(msg) = serde_json::from_value::<CardanoStakeDistributionMessage>(m.clone()) else { return Err("undecodable".to_string()) };
+        let Ok(pm) = MessageBuilder::new().compute_cardano_stake_distribution_message(cert, &msg) else { return Ok(None) };
+        if !cert.match_message(&pm) {
+            return Ok(None);
+        }
+        Ok(Some((msg.stake_distribution.clone(), *msg.epoch)))
+    })
+    .unwrap_or_else(|p| Err(format!("panicked: {p}")))
+}
+
+fn stake_case(c: &StakeCase, known: &Known) -> Report {
+    let mut rep = Report::new();
+    let certified: BTreeMap<String, u64> = c.pools.iter().cloned().collect();
+    if certified.is_empty() {
+        rep.discard("empty distribution");
+        return rep;
+    }
+    let Some((cert, _pm, honest)) = honest_stake(&certified, c.epoch) else {
+        rep.discard("signable builder refused the distribution");
+        return rep;
+    };
+    match stake_flow(&honest, &cert) {
+        Ok(Some((map, e))) if map == certified && e == c.epoch => {
+            rep.label("csd-honest-accepted");
+        }
+        other => {
+            rep.label("csd-honest-not-accepted");
+            rep.discard(format!("honest stake distribution not accepted: {other:?}"));
+            return rep;
+        }
+    }
+    let mut entries: Vec<(String, u64)> = certified.iter().map(|(k, v)| (k.clone(), *v)).collect();
+    let mut epoch = c.epoch;
+    let mut names = vec![];
+    for t in &c.tampers {
+        if apply_stake(&mut entries, &mut epoch, t) {
+            names.push(stake_tamper_name(t));
+        }
+    }
+    for n in &names {
+        rep.label(format!("csd-tamper:{n}"));
+    }
+    if names.is_empty() {
+        rep.label("csd-untampered");
+        return rep;
+    }
+    let mut m = honest.clone();
+    m["epoch"] = Value::from(epoch);
+    m["stake_distribution"] = Value::Object(entries.iter().map(|(k, v)| (k.clone(), Value::from(*v))).collect());
+    let reported_in: BTreeMap<String, u64> = entries.iter().cloned().collect();
+    let same_leaves = leaves_of(&reported_in) == leaves_of(&certified);
+    let same_concat = leaves_of(&reported_in).concat() == leaves_of(&certified).concat() && reported_in.len() == certified.len();
+    if reported_in != certified && same_leaves {
+        rep.label("class:stake-boundary-move-same-leaves");
+    } else if reported_in != certified && same_concat {
+        rep.label("class:stake-sibling-boundary-move-same-concatenation");
+    }
+    let flow = stake_flow(&m, &cert);
+    let verdict = match &flow {
+        Ok(Some(_)) => "accepted",
+        Ok(None) => "rejected",
+        Err(e) if e == "undecodable" => "undecodable",
+        Err(_) => "panicked",
+    };
+    rep.label(format!("csd-verdict:{verdict}"));
+    rep.nontrivial(format!("csd {names:?} n:{} same-leaves:{same_leaves} same-concat:{same_concat} {verdict}", certified.len().min(8)));
+    if let Ok(Some((map, e))) = flow {
+        if map != certified || e != c.epoch {
+            let diff: Vec<String> = map.iter().filter(|(k, v)| certified.get(*k) != Some(*v)).map(|(k, v)| format!("{k}:{v}")).collect();
+            let what = format!(
+                "the client accepted a stake distribution that differs from the certified one; reported-only entries {diff:?}, epoch {e} (signed {}), tamperings {names:?}, certified {:?}",
+                c.epoch,
+                certified.iter().take(6).collect::<Vec<_>>()
+            );
+            if e == c.epoch && leaves_of(&map) == leaves_of(&certified) {
+                if known.stake_boundary {
+                    rep.excluded_known(KEY_STAKE_BOUNDARY);
+                } else {
+                    rep.violation(KEY_STAKE_BOUNDARY, what);
+                }
+            } else if e == c.epoch && leaves_of(&map).concat() == leaves_of(&certified).concat() && map.len() == certified.len() {
+                rep.violation("stake-sibling-leaf-boundary-move", what);
+            } else {
+                rep.violation("stake-distribution-differs-from-certified", what);
+            }
+        } else {
+            rep.label("csd-accepted-and-equal");
+        }
+    }
+    rep
+}
+
+// ------------------------------------------------------------------------------- Mithril stake distribution
+
+#[derive(Clone, Copy, Debug, Serialize, Deserialize, PartialEq, Eq)]
+pub enum MsdTamper {
+    EditStake { i: u16, edit: NumEdit },
+    SwapStakes { a: u16, b: u16 },
+    SwapPartyIds { a: u16, b: u16 },
+    EditPartyId { i: u16, pos: u16 },
+    /// party id + operational certificate + KES signature + KES period exchanged between two signers
+    SwapIdentity { a: u16, b: u16 },
+    Remove { i: u16 },
+    Duplicate { i: u16 },
+    Reverse,
+    AddOutsider { stake: u64 },
+}
+
+#[derive(Clone, Debug, Serialize, Deserialize)]
+pub struct MsdCase {
+    /// (operator seed, KES evolution of the signature, stake)
+    pub signers: Vec<(u64, u8, u64)>,
+    pub outsider: u64,
+    pub epoch: u64,
+    pub tampers: Vec<MsdTamper>,
+}
+
+fn msd_signer(seed: u64, e_sig: u8, stake: u64) -> mithril_common::entities::SignerWithStake {
+    crate::c07::honest_signer_with_stake(&crate::c07::PoolSpec { seed, start: 0, issue: 0, e_sig, stake: None }, stake)
+}
+
+fn msd_map(m: &Value) -> Option<(BTreeMap<String, u64>, usize)> {
+    let a = m["signers"].as_array()?;
+    let mut map = BTreeMap::new();
+    for s in a {
+        map.insert(s["party_id"].as_str()?.to_string(), s["stake"].as_u64()?);
+    }
+    Some((map, a.len()))
+}
+
+fn msd_flow(m: &Value, cert: &CertificateMessage) -> Result<bool, String> {
+    use mithril_common::messages::MithrilStakeDistributionMessage;
+    catch(|| {
+        let Ok(msg) = serde_json::from_value::<MithrilStakeDistributionMessage>(m.clone()) else { return Err("undecodable".to_string()) };
+        let Ok(pm) = MessageBuilder::new().compute_mithril_stake_distribution_message(cert, &msg) else { return Ok(false) };
+        Ok(cert.match_message(&pm))
+    })
+    .unwrap_or_else(|p| Err(format!("panicked: {p}")))
+}
+
+fn msd_case(c: &MsdCase) -> Report {
+    use mithril_common::entities::ProtocolParameters;
+    use mithril_common::messages::{MithrilStakeDistributionMessage, SignerWithStakeMessagePart};
+    use mithril_common::protocol::SignerBuilder;
+    let mut rep = Report::new();
+    let mut seen = BTreeSet::new();
+    let specs: Vec<(u64, u8, u64)> = c.signers.iter().filter(|s| seen.insert(s.0)).cloned().collect();
+    if specs.is_empty() || specs.iter().all(|s| s.2 == 0) {
+        rep.label("msd-discard:no-signer-with-stake");
+        rep.discard("no signer with stake");
+        return rep;
+    }
+    let signers: Vec<_> = specs.iter().map(|s| msd_signer(s.0, s.1, s.2)).collect();
+    let params = ProtocolParameters { k: 5, m: 100, phi_f: 0.65 };
+    // signed: the aggregate verification key of the next signers, encoded as the aggregator encodes it
+    let builder = match SignerBuilder::new(&signers, &params) {
+        Ok(b) => b,
+        Err(e) => {
+            if std::env::var("C11_DEBUG").is_ok() {
+                eprintln!("MSD honest signers refused: {e:?}");
+            }
+            rep.label("msd-honest-signers-refused");
+            rep.label("msd-discard:honest-signers-refused");
+        rep.discard("honest signers refused");
+            return rep;
+        }
+    };
+    let avk = builder.compute_aggregate_verification_key();
+    let Ok(avk) = mithril_common::crypto_helper::ProtocolKey::new(avk.to_concatenation_aggregate_verification_key().to_owned()).to_json_hex() else {
+        rep.label("msd-discard:avk-encoding");
+        rep.discard("avk encoding");
+        return rep;
+    };
+    let mut pm = ProtocolMessage::new();
+    pm.set_message_part(ProtocolMessagePartKey::NextAggregateVerificationKey, avk);
+    pm.set_message_part(ProtocolMessagePartKey::NextProtocolParameters, "protocol-parameters-hash".to_string());
+    pm.set_message_part(ProtocolMessagePartKey::CurrentEpoch, c.epoch.to_string());
+    let cert = certificate("cert-msd", &pm, c.epoch);
+    let msg = MithrilStakeDistributionMessage {
+        epoch: Epoch(c.epoch),
+        signers_with_stake: SignerWithStakeMessagePart::from_signers(signers.clone()),
+        hash: "msd-hash".to_string(),
+        certificate_hash: cert.hash.clone(),
+        protocol_parameters: params.clone(),
+        ..MithrilStakeDistributionMessage::dummy()
+    };
+    let Ok(honest) = serde_json::to_value(&msg) else {
+        rep.label("msd-discard:message-encoding");
+        rep.discard("message encoding");
+        return rep;
+    };
+    let Some((certified, n_certified)) = msd_map(&honest) else {
+        rep.label("msd-discard:message-shape");
+        rep.discard("message shape");
+        return rep;
+    };
+    if msd_flow(&honest, &cert) != Ok(true) {
+        if std::env::var("C11_DEBUG").is_ok() {
+            use mithril_common::messages::MithrilStakeDistributionMessage as M;
+            let msg: M = serde_json::from_value(honest.clone()).unwrap();
+            eprintln!("MSD honest: {:?}", MessageBuilder::new().compute_mithril_stake_distribution_message(&cert, &msg).map(|p| (p.compute_hash(), cert.signed_message.clone())));
+        }
+        rep.label("msd-honest-not-accepted");
+        rep.label("msd-discard:honest-Mithril-stake-distribution-not-accepted");
+        rep.discard("honest Mithril stake distribution not accepted");
+        return rep;
+    }
+    rep.label("msd-honest-accepted");
+    let mut m = honest.clone();
+    let mut names = vec![];
+    for t in &c.tampers {
+        let Some(a) = m["signers"].as_array_mut() else { break };
+        let n = a.len();
+        let before = a.clone();
+        let two = |x: u16, y: u16| {
+            let x = pick_index(x, n);
+            let mut y = pick_index(y, n);
+            if x == y {
+                y = (x + 1) % n;
+            }
+            (x, y)
+        };
+        match *t {
+            MsdTamper::AddOutsider { stake } => {
+                let s = SignerWithStakeMessagePart::from_signers(vec![msd_signer(c.outsider, 0, stake)]);
+                a.push(serde_json::to_value(&s[0]).unwrap_or(Value::Null));
+            }
+            _ if n == 0 => continue,
+            MsdTamper::EditStake { i, edit } => {
+                let i = pick_index(i, n);
+                let v = a[i]["stake"].as_u64().unwrap_or(0);
+                a[i]["stake"] = Value::from(edit.apply(v));
+            }
+            MsdTamper::EditPartyId { i, pos } => {
+                let i = pick_index(i, n);
+                let mut b = a[i]["party_id"].as_str().unwrap_or("").as_bytes().to_vec();
+                if b.is_empty() {
+                    continue;
+                }
+                let p = pick_index(pos, b.len());
+                b[p] = if b[p] == b'q' { b'p' } else { b'q' };
+                a[i]["party_id"] = Value::from(String::from_utf8_lossy(&b).to_string());
+            }
+            MsdTamper::Remove { i } => {
+                a.remove(pick_index(i, n));
+            }
+            MsdTamper::Duplicate { i } => {
+                let x = a[pick_index(i, n)].clone();
+                a.push(x);
+            }
+            MsdTamper::Reverse => a.reverse(),
+            _ if n < 2 => continue,
+            MsdTamper::SwapStakes { a: x, b: y } => {
+                let (x, y) = two(x, y);
+                let (sx, sy) = (a[x]["stake"].clone(), a[y]["stake"].clone());
+                a[x]["stake"] = sy;
+                a[y]["stake"] = sx;
+            }
+            MsdTamper::SwapPartyIds { a: x, b: y } => {
+                let (x, y) = two(x, y);
+                let (sx, sy) = (a[x]["party_id"].clone(), a[y]["party_id"].clone());
+                a[x]["party_id"] = sy;
+                a[y]["party_id"] = sx;
+            }
+            MsdTamper::SwapIdentity { a: x, b: y } => {
+                let (x, y) = two(x, y);
+                for k in ["party_id", "operational_certificate", "verification_key_signature", "kes_period"] {
+                    let (sx, sy) = (a[x][k].clone(), a[y][k].clone());
+                    a[x][k] = sy;
+                    a[y][k] = sx;
+                }
+            }
+        }
+        if *a != before {
+            names.push(format!("{t:?}").split([' ', '{', '(']).next().unwrap_or("").to_string());
+        }
+    }
+    for nme in &names {
+        rep.label(format!("msd-tamper:{nme}"));
+    }
+    if names.is_empty() {
+        return rep;
+    }
+    let flow = msd_flow(&m, &cert);
+    let verdict = match &flow {
+        Ok(true) => "accepted",
+        Ok(false) => "rejected",
+        Err(e) if e == "undecodable" => "undecodable",
+        Err(_) => "panicked",
+    };
+    rep.label(format!("msd-verdict:{verdict}"));
+    rep.nontrivial(format!("msd {names:?} n:{n_certified} {verdict}"));
+    if flow == Ok(true) {
+        match msd_map(&m) {
+            Some((map, n)) if map == certified && n == n_certified => {
+                rep.label("msd-accepted-and-equal");
+            }
+            other => {
+                rep.violation(
+                    "mithril-stake-distribution-differs-from-certified",
+                    format!("the client accepted a Mithril stake distribution whose pool→stake map differs from the certified one: reported {other:?}, certified {certified:?}; tamperings {names:?}"),
+                );
+            }
+        }
+    }
+    rep
+}
+
+// ------------------------------------------------------------------------------------------- strategies
+
+fn chain_strategy() -> impl Strategy<Value = ChainSpec> {
+    (
+        any::<u64>(),
+        prop::sample::select(vec![0u64, 0, 1, 7, 14, 15, 29, 1000, 12_345]),
+        prop_oneof![2 => 1usize..=12, 3 => 13usize..=40, 3 => 41usize..=80],
+        prop_oneof![1 => Just(0u8), 3 => Just(1u8), 6 => Just(4u8)],
+        prop_oneof![3 => Just(u16::MAX), 2 => any::<u16>()],
+        prop_oneof![Just(0u64), 0u64..3000],
+        1u64..500,
+    )
+        .prop_flat_map(|(seed, first, n, density, up_to_idx, offset, epoch)| {
+            let max = density.max(1);
+            (prop::collection::vec(if density == 0 { 0u8..=1 } else { 0u8..=max }, n), Just((seed, first, up_to_idx, offset, epoch)))
+        })
+        .prop_map(|(txs, (seed, first, up_to_idx, offset, epoch))| ChainSpec { seed, first, txs, up_to_idx, offset, epoch })
+}
+
+fn num_edit() -> impl Strategy<Value = NumEdit> {
+    prop_oneof![3 => (0u8..20).prop_map(NumEdit::Plus), 3 => (0u8..20).prop_map(NumEdit::Minus), 1 => Just(NumEdit::Zero), 1 => Just(NumEdit::Max), 1 => any::<u64>().prop_map(NumEdit::Set)]
+}
+
+fn field() -> impl Strategy<Value = Field> {
+    prop::sample::select(vec![Field::TxHash, Field::BlockHash, Field::BlockNumber, Field::Slot])
+}
+
+fn tamper_strategy() -> impl Strategy<Value = Tamper> {
+    let r = any::<u16>();
+    prop_oneof![
+        3 => (r, any::<u64>()).prop_map(|(at, seed)| Tamper::AddAbsent { at, seed }),
+        2 => (r, r).prop_map(|(at, pick)| Tamper::AddUnproven { at, pick }),
+        2 => (r, r).prop_map(|(at, pick)| Tamper::AddTail { at, pick }),
+        2 => (r, r).prop_map(|(at, pick)| Tamper::PromoteNonCertified { at, pick }),
+        3 => (r, r, field(), r).prop_map(|(at, item, field, pos)| Tamper::EditHashChar { at, item, field, pos }),
+        3 => (r, r, field(), num_edit()).prop_map(|(at, item, field, edit)| Tamper::EditNumber { at, item, field, edit }),
+        4 => (r, r, r).prop_map(|(at, item, block)| Tamper::MoveToBlock { at, item, block }),
+        2 => (r, r, r, field()).prop_map(|(at, a, b, field)| Tamper::SwapField { at, a, b, field }),
+        1 => (r, r).prop_map(|(at, item)| Tamper::DropItem { at, item }),
+        1 => (r, r).prop_map(|(at, item)| Tamper::DupItem { at, item }),
+        3 => Just(Tamper::SpliceSecond),
+        4 => any::<bool>().prop_map(|front| Tamper::SpliceForeign { front }),
+        2 => (r, r).prop_map(|(a, b)| Tamper::SwapProofs { a, b }),
+        3 => r.prop_map(|at| Tamper::ReplaceProofForeign { at }),
+        2 => r.prop_map(|at| Tamper::ReplaceItemsForeign { at }),
+        2 => prop::sample::select(vec![EmptyKind::EmptyList, EmptyKind::Null, EmptyKind::NoItemsKeepProof]).prop_map(Tamper::Empty),
+        3 => (r, r).prop_map(|(at, which)| Tamper::DetachSubProof { at, which }),
+        1 => r.prop_map(|at| Tamper::DetachAllSubProofs { at }),
+        2 => (r, r).prop_map(|(at, which)| Tamper::PromoteSubProof { at, which }),
+        4 => (r, r, any::<bool>()).prop_map(|(at, which, replace)| Tamper::GraftForeignSubProof { at, which, replace }),
+        4 => (r, r, any::<u64>(), any::<bool>()).prop_map(|(at, leaf, seed, fake_first)| Tamper::LeafDupPosition { at, leaf, seed, fake_first }),
+        2 => (r, any::<u64>()).prop_map(|(at, seed)| Tamper::LeafAdd { at, seed }),
+        2 => (r, r, any::<u64>()).prop_map(|(at, leaf, seed)| Tamper::LeafReplace { at, leaf, seed }),
+        4 => (r, r, prop_oneof![-6i8..=-1, 1i8..=6]).prop_map(|(at, pair, k)| Tamper::SiblingBoundaryMove { at, pair, k }),
+        1 => (r, any::<bool>(), num_edit()).prop_map(|(at, sub, edit)| Tamper::ProofSize { at, sub, edit }),
+        1 => (r, any::<bool>(), r).prop_map(|(at, sub, i)| Tamper::DropProofItem { at, sub, i }),
+        1 => (r, any::<u8>()).prop_map(|(at, byte)| Tamper::FlipRoot { at, byte }),
+        3 => num_edit().prop_map(Tamper::LatestBlock),
+        3 => num_edit().prop_map(Tamper::Offset),
+        1 => Just(Tamper::CertificateHash),
+        2 => Just(Tamper::AsLegacy),
+        1 => Just(Tamper::AsV2),
+    ]
+}
+
+fn proof_case_strategy(pool: Vec<ChainSpec>) -> impl Strategy<Value = ProofCase> {
+    (
+        prop::sample::select(pool.clone()),
+        prop::sample::select(pool),
+        prop_oneof![3 => Just(Fmt::Legacy), 3 => Just(Fmt::V2Tx), 2 => Just(Fmt::V2Blk)],
+        any::<u16>(),
+        any::<u16>(),
+        any::<u16>(),
+        prop_oneof![1 => Just(vec![]), 14 => prop::collection::vec(tamper_strategy(), 1..=1), 5 => prop::collection::vec(tamper_strategy(), 2..=2)],
+        prop_oneof![16 => Just(CertSel::Matching), 2 => Just(CertSel::OtherFormat), 2 => Just(CertSel::Foreign)],
+    )
+        .prop_map(|(chain, foreign, fmt, query, second, foreign_query, tampers, cert)| ProofCase { chain, foreign, fmt, query, second, foreign_query, tampers, cert })
+}
+
+fn stake_value() -> impl Strategy<Value = u64> {
+    prop_oneof![1 => Just(0u64), 2 => 1u64..100, 3 => 100u64..1_000_000_000, 1 => any::<u64>()]
+}
+
+/// ids are bech32-shaped; many end in digits and many stakes start with the digits that follow
+fn pools_strategy() -> impl Strategy<Value = Vec<(String, u64)>> {
+    prop::collection::vec((any::<u64>(), 6usize..40, prop_oneof![2 => Just(None), 3 => (0u64..1000).prop_map(Some)], stake_value()), 1..=30).prop_map(|v| {
+        v.into_iter()
+            .map(|(seed, len, tail_digits, stake)| {
+                let mut id = bech32ish(seed, len);
+                if let Some(d) = tail_digits {
+                    // digit tail taken from the bech32 alphabet (no '1')
+                    id.push_str(&d.to_string().replace('1', "7"));
+                }
+                (id, stake)
+            })
+            .collect()
+    })
+}
+
+fn stake_tamper_strategy() -> impl Strategy<Value = StakeTamper> {
+    let r = any::<u16>();
+    prop_oneof![
+        2 => (r, r).prop_map(|(pool, pos)| StakeTamper::EditIdChar { pool, pos }),
+        3 => (r, num_edit()).prop_map(|(pool, edit)| StakeTamper::EditStake { pool, edit }),
+        6 => (r, prop_oneof![-4i8..=-1, 1i8..=4]).prop_map(|(pool, k)| StakeTamper::BoundaryMove { pool, k }),
+        3 => (r, -5i8..=5, 0u8..6, 0u8..6).prop_map(|(pool, cut, dl, dr)| StakeTamper::Resplit { pool, cut, dl, dr }),
+        2 => (any::<u64>(), stake_value()).prop_map(|(seed, stake)| StakeTamper::AddPool { seed, stake }),
+        2 => r.prop_map(|pool| StakeTamper::RemovePool { pool }),
+        2 => (r, r).prop_map(|(a, b)| StakeTamper::SwapStakes { a, b }),
+        1 => num_edit().prop_map(StakeTamper::Epoch),
+    ]
+}
+
+fn stake_case_strategy() -> impl Strategy<Value = StakeCase> {
+    (pools_strategy(), 1u64..1000, prop_oneof![1 => Just(vec![]), 12 => prop::collection::vec(stake_tamper_strategy(), 1..=1), 4 => prop::collection::vec(stake_tamper_strategy(), 2..=2)])
+        .prop_map(|(pools, epoch, tampers)| StakeCase { pools, epoch, tampers })
+}
+
+fn msd_tamper_strategy() -> impl Strategy<Value = MsdTamper> {
+    let r = any::<u16>();
+    prop_oneof![
+        3 => (r, num_edit()).prop_map(|(i, edit)| MsdTamper::EditStake { i, edit }),
+        2 => (r, r).prop_map(|(a, b)| MsdTamper::SwapStakes { a, b }),
+        3 => (r, r).prop_map(|(a, b)| MsdTamper::SwapPartyIds { a, b }),
+        2 => (r, r).prop_map(|(i, pos)| MsdTamper::EditPartyId { i, pos }),
+        2 => (r, r).prop_map(|(a, b)| MsdTamper::SwapIdentity { a, b }),
+        1 => r.prop_map(|i| MsdTamper::Remove { i }),
+        1 => r.prop_map(|i| MsdTamper::Duplicate { i }),
+        1 => Just(MsdTamper::Reverse),
+        1 => stake_value().prop_map(|stake| MsdTamper::AddOutsider { stake }),
+    ]
+}
+
+fn msd_case_strategy(seeds: Vec<u64>) -> impl Strategy<Value = MsdCase> {
+    (
+        prop::collection::vec((prop::sample::select(seeds.clone()), prop::sample::select(vec![0u8, 1, 30, 63]), prop_oneof![1 => Just(0u64), 5 => 1u64..1_000_000]), 1..=5),
+        prop::sample::select(seeds),
+        1u64..500,
+        prop::collection::vec(msd_tamper_strategy(), 1..=2),
+    )
+        .prop_map(|(signers, outsider, epoch, tampers)| MsdCase { signers, outsider, epoch, tampers })
+}
+
+/// the per-run pool of chains: a pure function of the run seed; built (and cached) in parallel
+fn build_pool(seed: u64, size: usize, threads: usize) -> Vec<ChainSpec> {
+    let specs: Vec<ChainSpec> = (0..size).map(|i| vcore::sample_one(&chain_strategy(), mix(seed, 0xC11 + i as u64))).collect();
+    let next = std::sync::atomic::AtomicUsize::new(0);
+    std::thread::scope(|sc| {
+        for _ in 0..threads.max(1) {
+            sc.spawn(|| loop {
+                let i = next.fetch_add(1, std::sync::atomic::Ordering::Relaxed);
+                if i >= specs.len() {
+                    break;
+                }
+                let _ = honest_cached(&specs[i]);
+            });
+        }
+    });
+    specs.into_iter().filter(|s| honest_cached(s).is_some()).collect()
+}
+
+fn witness_stake_boundary() -> bool {
+    let certified: BTreeMap<String, u64> = [("pool1abc".to_string(), 123u64)].into_iter().collect();
+    let Some((cert, _, mut m)) = honest_stake(&certified, 7) else { return false };
+    m["stake_distribution"] = json!({"pool1abc1": 23});
+    matches!(stake_flow(&m, &cert), Ok(Some((map, _))) if map != certified)
+}
+
+fn witness_sibling() -> bool {
+    // 15 blocks with one transaction each = one complete block range; neighbours 0 and 1 are sibling leaves
+    let spec = ChainSpec { seed: 0x51b, first: 0, txs: vec![1; 15], up_to_idx: u16::MAX, offset: 0, epoch: 3 };
+    let Some(h) = honest_cached(&spec) else { return false };
+    let (a, b) = (h.chain[0].txs[0].clone(), h.chain[1].txs[0].clone());
+    let Some(resp) = h.legacy.iter().find(|r| r.query.contains(&a) && r.query.contains(&b)) else { return false };
+    let mut m = resp.json.clone();
+    let mut fmt = Fmt::Legacy;
+    let cx = TamperCtx { h: &h, foreign: &h, second: None, foreign_resp: None };
+    for pair in [0u16, 20000, 40000, 60000] {
+        let mut mm = m.clone();
+        if apply(&mut mm, &mut fmt, &Tamper::SiblingBoundaryMove { at: 0, pair, k: 3 }, &cx) {
+            if let Flow::Accepted { reported, .. } = client_flow(Fmt::Legacy, &mm, &h.cert_legacy) {
+                if reported.iter().any(|x| !is_certified(Fmt::Legacy, x, &h)) {
+                    return true;
+                }
+            }
+        }
+    }
+    m = Value::Null;
+    let _ = m;
+    false
+}
 
 pub fn run(args: &Args) -> i32 {
-    let check = Check::new("C11", "exploration", args);
-    check.inconclusive("check not implemented yet".into());
+    let mut check = Check::new("C11", "exploration", args);
+    check
+        .rule("chains of 1..80 blocks (first block 0..12345, 0..4 transactions per block, 1..7 block ranges of 15) imported by the real importer into the real sqlite repository; signed messages from the real signable builders (legacy beacon = end of the last complete range, v2 beacon anywhere, offset 0..3000); 6 queries per chain and format (single, multi-range, whole range, present+absent, everything, two neighbours) answered by the real provers; the response (JSON view incl. the decoded Merkle map proof) rewritten by 1..2 of 32 tamperings (items added / renamed / moved to another block / swapped; set proofs spliced from a second response or from another chain, proofs and item lists exchanged; sub-proofs detached / promoted / grafted from another chain; leaves added / replaced / at a duplicated position / characters moved between sibling leaves; proof size / items / root edited; latest block number, offset, certificate hash; v2 proof presented as legacy and back) and verified against the matching certificate, the certificate of the other format or of another chain. Stake distributions: 1..30 bech32-shaped pools with digit tails and stakes incl. 0, edited ids / stakes, characters moved across the id|stake boundary and across neighbouring entries, pools added / removed / swapped; Mithril stake distributions of 1..5 certified signers with stakes / party ids / identities edited. Non-trivial = at least one tampering applied and the response still decodes; distinct by (format, applied tamperings, certificate choice, verdict)")
+        .assume("the certificate itself is genuine (its chain validation is C03); collision resistance of Blake2s/SHA-256; ground truth = the generated chain / stake map")
+        .assume("legacy certificates exist only for beacons at the end of a complete block range (CardanoTransactionsSigningConfig), v2 certificates for any beacon")
+        .require_label("honest-accepted:Legacy")
+        .require_label("honest-accepted:V2Tx")
+        .require_label("honest-accepted:V2Blk")
+        .require_label("verdict:accepted")
+        .require_label("verdict:verify-rejected")
+        .require_label("verdict:message-mismatch")
+        .require_label("accepted-and-rule-holds")
+        .require_label("several-set-proofs")
+        .require_label("class:cross-root-mix")
+        .require_label("class:moved-to-other-block")
+        .require_label("class:sibling-boundary-move")
+        .require_label("class:duplicated-leaf-position")
+        .require_label("class:detached-sub-proof")
+        .require_label("class:foreign-sub-proof-grafted")
+        .require_label("class:format-confusion")
+        .require_label("cert:OtherFormat")
+        .require_label("cert:Foreign")
+        .require_label("csd-honest-accepted")
+        .require_label("class:stake-boundary-move-same-leaves")
+        .require_label("csd-verdict:rejected")
+        .require_label("msd-honest-accepted")
+        .require_label("msd-verdict:rejected");
+    let t = check.tier;
+    check.shrink_iters(300);
+    let known = Known { sibling: check.has_open_known(KEY_SIBLING), stake_boundary: check.has_open_known(KEY_STAKE_BOUNDARY) };
+    let scale = if check.is_replay() { 0 } else { 1 };
+    let pool = build_pool(check.seed, scale * t.pick(200, 6000) as usize, check.threads);
+    check.note_section("pool", json!({"chains": pool.len()}));
+    if !check.is_replay() && pool.len() < 20 {
+        check.inconclusive("chain pool too small".into());
+        return check.finish();
+    }
+    let pool = if pool.is_empty() { vec![ChainSpec { seed: 1, first: 0, txs: vec![1; 15], up_to_idx: u16::MAX, offset: 0, epoch: 1 }] } else { pool };
+    check.section("proofs", || proof_case_strategy(pool.clone()), t.pick(10_000, 300_000), |c| proof_case(c, &known));
+    check.section("cardano-stake-distribution", stake_case_strategy, t.pick(5000, 150_000), |c| stake_case(c, &known));
+    let seeds: Vec<u64> = (0..12).map(|i| mix(check.seed, 0x5d + i) >> 1).collect();
+    check.section("mithril-stake-distribution", || msd_case_strategy(seeds.clone()), t.pick(400, 10_000), msd_case);
+    check.witness(KEY_STAKE_BOUNDARY, "the client accepts {pool1abc1: 23} against the certificate of {pool1abc: 123}", witness_stake_boundary);
+    check.witness(KEY_SIBLING, "legacy proof: characters moved between two sibling transaction-hash leaves are accepted and reported as certified transactions", witness_sibling);
     check.finish()
 }
